@@ -145,8 +145,10 @@ def open_existing(ctx, rule='C06.open-existing'):
                     if v and _creates_new_under(F, ctx, g, p):
                         fresh = True
                         why = 'file obtained from %s(.., true, ..) which applies create_new(true)' % g.qual
-        # form 2: control dependent on a comparison of the file length with zero
-        if not fresh:
+        # form 2: control dependent on a comparison of the file length with zero, taken AFTER the exclusive file lock
+        # (an emptiness test before the lock is a race: another opener may be initialising the same empty file)
+        locked = e['node'] not in T.reach({T.nodes[0].id}, avoid={x['ok_node'] for x in T.events('L') if x.get('method') == 'lock_exclusive' and 'ok_node' in x})
+        if not fresh and locked:
             for (a, s) in fn.control_deps_transitive(bb):
                 at = fn.term(a)
                 if at['k'] == 'switch':
@@ -383,7 +385,7 @@ def writable_provenance(ctx, rule='C06.writable-provenance'):
                     res.append(bad(rule, '%s | %s.writable not derived from the transaction' % (fn.qual, carrier),
                                    'the %s built at %s sets `writable` from something other than the transaction lock / the parent carrier (or a literal true outside the writable check): '
                                    'a read-only transaction could hand out a writable handle' % (carrier, fn.loc(bb, si)), where=fn.loc(bb, si)))
-    f = floor(rule, 'constructions of carriers with a writable bit', n, 11)
+    f = floor(rule, 'constructions of carriers with a writable bit', n, 3)
     if f:
         res.append(f)
     # TxLock::writable is true exactly for the variant holding the writer lock: checked in C09.writer-excl
